@@ -192,7 +192,8 @@ def demoIx : Index :=
 def demoColl : Coll :=
   { docs := [(.int 1, .doc [("_id", .int 1), ("k", .int 5), ("live", .bool true)]),
              (.int 2, .doc [("_id", .int 2), ("k", .int 5)])],
-    indexes := [Index.mk "n_1" [("n", .int 1)] false false none none, demoIx] }
+    indexes := [Index.mk "n_1" [("n", .int 1)] false false none none, demoIx],
+    forceCreated := true }
 
 /-- non-vacuity of `dup_write_rejected_partial` and `dup_write_rejected_dupkey`: inserting
     `{_id: 3, k: 5.0, live: true}` (`5.0 == 5`) raises DuplicateKeyError -/
@@ -421,9 +422,12 @@ example :
 /-- **An `InsertOne` request that would create a duplicate key under a unique index yields a
     write error** (DuplicateKeyError, reported by `bulkLoop` at the request's index) **and
     leaves the collection unchanged at that step** — under the hypotheses of
-    `dup_write_rejected_dupkey` (no TTL index: expiry is C09's business). -/
+    `dup_write_rejected_dupkey` (no TTL index: expiry is C09's business), on a collection in which
+    existence is recorded (`Coll.Recorded`, every reachable one: a collection with an index has
+    its created flag set; the rejected insert, which had already stored the document when the
+    uniqueness check refused it, sets that flag once more). -/
 theorem bulk_dup_write_rejected (cfg : Cfg) (now : Int) (c : Coll) (idx : Nat) (d : Val)
-    (ix : Index) (p : Val × Val)
+    (ix : Index) (p : Val × Val) (hr : c.Recorded)
     (hs : ScalarInv c) (hix : ix ∈ c.indexes) (hu : ix.unique = true) (hnt : c.ttlIndexes = [])
     (hp : p ∈ c.docs) (hcp : covers ix p.2 = true) (hcd : covers ix (patchDT d) = true)
     (hsd : scalarKeys ix (patchDT d) = true)
@@ -433,7 +437,7 @@ theorem bulk_dup_write_rejected (cfg : Cfg) (now : Int) (c : Coll) (idx : Nat) (
     (hone : ∀ i ∈ c.indexes, i.unique = true → i = ix)
     (hpf : ∀ f, ix.partialFilter = some f → ∀ q ∈ c.docs, ∃ b, filterApplies f q.2 = .ok b) :
     bulkOne cfg now c idx (.arr [.str "InsertOne", d]) = (c, .writeErr .dupKey) :=
-  Proofs.C06Ext.bulk_dup_write_rejected cfg now c idx d ix p hs hix hu hnt hp hcp hcd hsd heq hid hk hone hpf
+  Proofs.C06Ext.bulk_dup_write_rejected cfg now c idx d ix p hr hs hix hu hnt hp hcp hcd hsd heq hid hk hone hpf
 
 /-- … hence, at the level of the loop: the error is recorded at the request's index with code
     11000; an ordered bulk stops there, an unordered one goes on from the same collection. -/
@@ -458,7 +462,7 @@ example : bulkLoop {} 0 true
       [Val.doc [("index", .int 4), ("code", .int 11000)]] }).toVal) :=
   bulk_dup_write_error_at_index {} 0 true demoColl 4 _ _ {}
     (bulk_dup_write_rejected {} 0 demoColl 4 _ demoIx
-      (.int 1, .doc [("_id", .int 1), ("k", .int 5), ("live", .bool true)])
+      (.int 1, .doc [("_id", .int 1), ("k", .int 5), ("live", .bool true)]) (fun _ => rfl)
       ((Proofs.C06Lemmas.scalB_iff _).1 (by decide +kernel)) (by simp [demoColl]) rfl rfl
       (by simp [demoColl]) (by decide +kernel) (by decide +kernel) (by decide +kernel)
       (by decide +kernel) ⟨_, rfl, by decide +kernel⟩ ⟨.int 3, rfl⟩
